@@ -87,9 +87,13 @@ func HandleSearch(deps ServerDeps, conn net.Conn, tag string, parts []string, st
 
 	// Parse and evaluate search criteria
 	criteria := strings.Join(parts[searchStart:], " ")
-	matchingSeqNums, _, err := EvaluateSearch(deps, targetDB, state.SelectedMailboxID, criteria, charset)
+	matchingSeqNums, _, err := EvaluateSearch(deps, targetDB, state.SelectedMailboxID, criteria, charset, true)
 	if err != nil {
-		deps.SendResponse(conn, fmt.Sprintf("%s NO Search failed: %v", tag, err))
+		if errors.Is(err, errUnsupportedSearchKey) {
+			deps.SendResponse(conn, fmt.Sprintf("%s BAD %v", tag, err))
+		} else {
+			deps.SendResponse(conn, fmt.Sprintf("%s NO Search failed: %v", tag, err))
+		}
 		return
 	}
 
@@ -106,9 +110,13 @@ func HandleSearch(deps ServerDeps, conn net.Conn, tag string, parts []string, st
 	deps.SendResponse(conn, fmt.Sprintf("%s OK SEARCH completed", tag))
 }
 
+// errUnsupportedSearchKey marks search programs the evaluator does not implement
+var errUnsupportedSearchKey = errors.New("unsupported search key")
+
 // EvaluateSearch runs the search criteria against the messages of a mailbox and returns the matching
-// sequence numbers and UIDs in ascending order.
-func EvaluateSearch(deps ServerDeps, targetDB *sql.DB, mailboxID int64, criteria string, charset string) ([]int, []int64, error) {
+// sequence numbers and UIDs in ascending order. With strict set, a program containing a key (or a
+// parenthesised group) the evaluator does not implement is refused instead of being partly ignored.
+func EvaluateSearch(deps ServerDeps, targetDB *sql.DB, mailboxID int64, criteria string, charset string, strict bool) ([]int, []int64, error) {
 	messages, err := loadSearchMessages(targetDB, mailboxID)
 	if err != nil {
 		return nil, nil, err
@@ -117,6 +125,11 @@ func EvaluateSearch(deps ServerDeps, targetDB *sql.DB, mailboxID int64, criteria
 		criteria = "ALL"
 	}
 	tokens := parseSearchTokens(criteria)
+	if strict {
+		if err := validateSearchTokens(tokens); err != nil {
+			return nil, nil, err
+		}
+	}
 	var seqs []int
 	var uids []int64
 	for _, msg := range messages {
@@ -163,6 +176,79 @@ func loadSearchMessages(targetDB *sql.DB, mailboxID int64) ([]messageInfo, error
 		messages[i].maxUID = messages[len(messages)-1].uid
 	}
 	return messages, nil
+}
+
+// simpleSearchKeyLen reports whether tokens[i] starts a key without sub-keys, and how many tokens it spans
+func simpleSearchKeyLen(tokens []string, i int) (int, bool) {
+	token := strings.ToUpper(tokens[i])
+	if isSequenceSet(token) {
+		return 1, true
+	}
+	switch token {
+	case "ALL", "ANSWERED", "DELETED", "DRAFT", "FLAGGED", "NEW", "OLD", "RECENT", "SEEN",
+		"UNANSWERED", "UNDELETED", "UNDRAFT", "UNFLAGGED", "UNSEEN":
+		return 1, true
+	}
+	if token == "HEADER" || token == "NOT" || token == "OR" {
+		return 0, false
+	}
+	if requiresArgument(token) {
+		if i+1 < len(tokens) {
+			return 2, true
+		}
+		return 0, false
+	}
+	// A parenthesised group is not implemented. Any other unknown word is skipped by the evaluator
+	// (it matches every message), which the existing tests rely on.
+	if strings.HasPrefix(token, "(") {
+		return 0, false
+	}
+	return 1, true
+}
+
+// validateSearchTokens walks the tokens the way evaluateTokens does and refuses what it would misread:
+// parenthesised groups, missing arguments, and NOT / OR over anything but simple keys
+func validateSearchTokens(tokens []string) error {
+	i := 0
+	for i < len(tokens) {
+		token := strings.ToUpper(tokens[i])
+		switch token {
+		case "HEADER":
+			if i+2 >= len(tokens) {
+				return fmt.Errorf("%w: HEADER requires a field name and a string", errUnsupportedSearchKey)
+			}
+			i += 3
+		case "NOT":
+			if i+1 >= len(tokens) {
+				return fmt.Errorf("%w: NOT requires a search key", errUnsupportedSearchKey)
+			}
+			n, ok := simpleSearchKeyLen(tokens, i+1)
+			if !ok {
+				return fmt.Errorf("%w: NOT %s", errUnsupportedSearchKey, tokens[i+1])
+			}
+			i += 1 + n
+		case "OR":
+			if i+1 >= len(tokens) {
+				return fmt.Errorf("%w: OR requires two search keys", errUnsupportedSearchKey)
+			}
+			n1, ok := simpleSearchKeyLen(tokens, i+1)
+			if !ok || i+1+n1 >= len(tokens) {
+				return fmt.Errorf("%w: OR requires two simple search keys", errUnsupportedSearchKey)
+			}
+			n2, ok := simpleSearchKeyLen(tokens, i+1+n1)
+			if !ok {
+				return fmt.Errorf("%w: OR requires two simple search keys", errUnsupportedSearchKey)
+			}
+			i += 1 + n1 + n2
+		default:
+			n, ok := simpleSearchKeyLen(tokens, i)
+			if !ok {
+				return fmt.Errorf("%w: %s", errUnsupportedSearchKey, tokens[i])
+			}
+			i += n
+		}
+	}
+	return nil
 }
 
 // evaluateSearchCriteria evaluates search criteria against messages
